@@ -685,6 +685,16 @@ av_free(struct av * a)
 	free(a->fargv);
 }
 
+/* getopt.h: optreset is "set to a nonzero value" - any one will do. */
+static int
+reset_value(void)
+{
+	static const int v[] = { 1, 1, 2, -1, 100, 1, 256, -2147483647 };
+	static unsigned n;
+
+	return (v[n++ % (sizeof(v) / sizeof(v[0]))]);
+}
+
 int
 main(void)
 {
@@ -714,7 +724,7 @@ main(void)
 			same = (strcmp(vh_tok(&L, 6), "=") == 0);
 			av_build(&a, vh_tok(&L, same ? 3 : 6));
 			if (!first)
-				optreset = 1;
+				optreset = reset_value();
 			first = 0;
 			opterr = 0;
 			evlen = 0;
@@ -731,7 +741,7 @@ main(void)
 		if (!same)
 			av_build(&a, vh_tok(&L, 3));
 		if (!first)
-			optreset = 1;
+			optreset = reset_value();
 		first = 0;
 		opterr = (int)vh_tok_i(&L, 2);
 		evlen = 0;
